@@ -168,7 +168,7 @@ func runC07(w *mc.Worker) {
 	src := &SrcCfg{Asset: "USD", Accts: ws(0, "a", "b", "world"),
 		Grants: ws(0, "2"), GrantAcct: ws(0, "a", "b"),
 		Caps:       ws(0, "2", "1"),
-		Vecs:       []PortVec{{[]string{"1/2", "1/2"}, 0}, {[]string{"1/3", "remaining"}, 0}},
+		Vecs:       []PortVec{{[]string{"1/2", "1/2"}, 0}, {[]string{"1/3", "remaining"}, 0}, {[]string{"remaining", "1/4"}, 0}},
 		ListLens:   cat(ws(0, "2"), ws(1, "3")),
 		WOverdraft: 1, WUnbounded: -1, WVar: -1, WInorder: 0, WCapped: 1, WAllot: 1}
 	dst := &DstCfg{Asset: "USD", Accts: ws(0, "x", "y", "a"),
